@@ -126,7 +126,7 @@ func expect(tier string) []string {
 		"parties=1", "parties=2", "parties=3", "sigma=0", "sigma=1024", "sigma=1.048576e+06", "t=97", "t=65537", "ntt=true", "ntt=false", "lin=0", "lin=>0",
 		"smudge=ks", "smudge=pcks", "smudge=bgv-e2s", "smudge=bgv-s2e", "smudge=ckks-e2s", "smudge=ckks-s2e",
 		"transform=id/dec=true/enc=true", "transform=scale/dec=true/enc=true", "transform=perm/dec=true/enc=true", "transform=perm/dec=false/enc=false", "transform=scale/dec=true/enc=false", "transform=scale/dec=false/enc=true",
-		"ckks-flags=rejected", "ckks-minlevel=at-minimum", "ckks-minlevel=below-minimum-rejected-or-correct",
+		"ckks-flags=rejected", "ckks-minlevel=at-minimum", "ckks-minlevel=no-slack", "ckks-minlevel=below-minimum-rejected-or-correct",
 	}
 	if tier == "thorough" {
 		e = append(e, "parties=4", "parties=8")
